@@ -6,7 +6,6 @@ import (
 	"net"
 	"strings"
 
-	"github.com/gopacket/gopacket"
 	"github.com/gopacket/gopacket/layers"
 	"verif/harness/lib"
 )
@@ -345,6 +344,24 @@ func gen(r *lib.Rand, tier string, emit func(string)) {
 		}
 		emit(fmt.Sprintf("%s dec %s 0 - %s", E, k, lib.Hex(append(append([]byte(nil), h...), 7))))
 	}
+	// 4b. ICMPv6 type dispatch: every type byte (NextLayerType), through dec / pkt / dlp; MLD query size boundary
+	emit("reset")
+	for ty := 0; ty < 256; ty++ {
+		body := seq(24, byte(ty))
+		d := append([]byte{byte(ty), byte(ty % 3), 0, 0}, body...)
+		emit(fmt.Sprintf("%s dec icmp6 0 - %s", E, lib.Hex(d)))
+		emit(fmt.Sprintf("%s pkt icmp6 %d %s", E, ty%4, lib.Hex(d)))
+		if ty%8 == 0 || (ty >= 128 && ty <= 143) {
+			emit(fmt.Sprintf("%s dlp icmp6 %s", E, lib.Hex(d)))
+			emit(fmt.Sprintf("%s pkt icmp6 0 %s", E, lib.Hex(d[:4])))
+		}
+	}
+	for _, n := range []int{0, 1, 19, 20, 21, 22} {
+		d := append([]byte{130, 0, 0, 0}, seq(n, 1)...)
+		emit(fmt.Sprintf("%s dec icmp6 0 - %s", E, lib.Hex(d)))
+		emit(fmt.Sprintf("%s pkt icmp6 0 %s", E, lib.Hex(d)))
+		emit(fmt.Sprintf("%s dlp icmp6 %s", E, lib.Hex(d)))
+	}
 	// generated pool
 	for i := 0; i < 60*scale; i++ {
 		k := kinds[r.Intn(len(kinds))]
@@ -451,20 +468,15 @@ func gen(r *lib.Rand, tier string, emit func(string)) {
 			emit(serLine(k, fc>>1, fc&1, randHist(r), netw, l, p))
 		}
 	}
-	// serialising what decoding produced
-	for i := 0; i < 60*scale; i++ {
+	// serialising what decoding produced (decode + serialize happen at run time, under the watchdog)
+	for i := 0; i < 80*scale; i++ {
 		s := pool[r.Intn(len(pool))]
-		l := newLayer(s.kind)
-		if err := l.DecodeFromBytes(append([]byte(nil), s.data...), gopacket.NilDecodeFeedback); err != nil {
-			continue
-		}
 		emit("reset")
 		netw := "none"
-		if s.kind == "icmp6" {
+		if s.kind == "icmp6" && r.Chance(80) {
 			netw = randNet(r)
 		}
-		emit(serLine(s.kind, 1, 1, randHist(r), netw, l, l.LayerPayload()))
-		emit(serLine(s.kind, 0, 0, randHist(r), netw, l, l.LayerPayload()))
+		emit(fmt.Sprintf("%s decser %s %s %s %s", E, s.kind, randHist(r), netw, lib.Hex(s.data)))
 	}
 	// 9. stacks through SerializeLayers + NewPacket
 	for i := 0; i < 120*scale; i++ {
@@ -477,6 +489,9 @@ func gen(r *lib.Rand, tier string, emit func(string)) {
 		k := msgKinds[r.Intn(len(msgKinds))]
 		l := randLayer(r, k, r.Chance(80))
 		tc := int(icmp6Type(k))<<8 | r.Pick([]int{0, 0, 0, 1, 255})
+		if k == "echo" && r.Bool() {
+			tc += 256 // echo reply
+		}
 		if r.Chance(10) {
 			tc = r.Intn(65536)
 		}
@@ -490,6 +505,7 @@ func gen(r *lib.Rand, tier string, emit func(string)) {
 		emit(l)
 	}
 	_ = strings.Join
+	_ = randLayer
 }
 
 func bytes0(n int, v byte) []byte {
